@@ -1,0 +1,70 @@
+// SPDX-License-Identifier: MPL-2.0
+
+//! Verification hooks. Compiled only with `--cfg prio_verif`; never part of a normal build.
+//!
+//! A thread-local byte tape that, when installed, replaces the operating-system randomness
+//! consumed by the few call sites that use `rand::rng()` directly and have no deterministic
+//! twin (`Prio2::shard`, `prio2::client::ClientMemory::new`, `Idpf::gen`). With no tape
+//! installed the wrapped generator is used unchanged.
+
+use rand_core::{utils::next_word_via_fill, Rng, TryRng};
+use std::{cell::RefCell, convert::Infallible};
+
+thread_local! {
+    static TAPE: RefCell<Option<(Vec<u8>, usize)>> = const { RefCell::new(None) };
+}
+
+/// Install a tape of random bytes for the current thread. Reads past the end wrap around.
+pub fn install_tape(bytes: Vec<u8>) {
+    assert!(!bytes.is_empty(), "tape must not be empty");
+    TAPE.with(|t| *t.borrow_mut() = Some((bytes, 0)));
+}
+
+/// Remove the tape; returns the number of bytes that were consumed from it.
+pub fn remove_tape() -> usize {
+    TAPE.with(|t| t.borrow_mut().take().map(|(_, used)| used).unwrap_or(0))
+}
+
+/// Random number generator that yields tape bytes when a tape is installed and otherwise
+/// delegates to the wrapped generator.
+#[derive(Debug)]
+pub struct SimRng<R>(R);
+
+impl<R> SimRng<R> {
+    /// Wrap a generator.
+    pub fn wrap(inner: R) -> Self {
+        Self(inner)
+    }
+}
+
+impl<R: Rng> TryRng for SimRng<R> {
+    type Error = Infallible;
+
+    fn try_fill_bytes(&mut self, dest: &mut [u8]) -> Result<(), Infallible> {
+        let from_tape = TAPE.with(|t| {
+            let mut t = t.borrow_mut();
+            match t.as_mut() {
+                Some((bytes, used)) => {
+                    for b in dest.iter_mut() {
+                        *b = bytes[*used % bytes.len()];
+                        *used += 1;
+                    }
+                    true
+                }
+                None => false,
+            }
+        });
+        if !from_tape {
+            self.0.fill_bytes(dest);
+        }
+        Ok(())
+    }
+
+    fn try_next_u32(&mut self) -> Result<u32, Infallible> {
+        next_word_via_fill(self)
+    }
+
+    fn try_next_u64(&mut self) -> Result<u64, Infallible> {
+        next_word_via_fill(self)
+    }
+}
